@@ -102,6 +102,8 @@ Finalize:
     LOG("[stream %d] SOURCE: Stopping on frame %d",
         (int)self->stream_id,
         (int)iframe);
+    // Order matters: the filter feeds the sink. `sig_stop_filter` returns once
+    // the filter has emitted its last frame; only then may the sink stop.
     self->sig_stop_filter(self);
     self->sig_stop_sink(self);
 
